@@ -242,15 +242,20 @@ TOK = [
     ('if', 'open', 'c%d'), ('elif', 'cont', 'c%d'), ('else', 'cont', ''), ('if', 'close', ''),
     ('in', 'open', 's%d'), ('in', 'close', ''),
     ('try', 'open', ''), ('except', 'cont', 'E%d'), ('finally', 'cont', ''), ('try', 'close', ''),
-    ('var', 'simple', 'v%d'), ('bogus', 'bogus', 'q%d'),
+    ('var', 'simple', 'v%d'), ('bogus', 'bogus', 'q%d'), ('else', 'cont', 'c1'),
     ('with', 'open', 'w%d'), ('with', 'close', ''),
     ('let', 'open', 'x%d=a'), ('let', 'close', ''),
     ('unless', 'open', 'u%d'), ('unless', 'close', ''),
     ('comment', 'open', ''), ('comment', 'close', ''),
     ('raise', 'open', 'T%d'), ('raise', 'close', ''),
     ('return', 'simple', 'r%d'), ('call', 'simple', 'f%d'), ('except', 'cont', ''), ('', 'text', 'txt%d'),
+    ('If', 'bogus', 'c%d'), ('IN', 'bogus', 's%d'), ('else', 'cont', 's1'), ('Var', 'bogus', 'v%d'),
 ]
-NCORE = 12     # the first 12 tokens form the reduced vocabulary used for the longest sequences
+NCORE = 13     # the first 13 tokens form the reduced vocabulary used for the longest sequences
+# tag lookup is by exact name in a registry that is filled lazily on first use of each block tag: put it into the state a
+# long-running process has (every tag used once) before any obligation runs
+HTML('<dtml-if a><dtml-in b><dtml-with c><dtml-let d=e><dtml-try><dtml-raise f></dtml-raise><dtml-except></dtml-try>'
+     '<dtml-unless g><dtml-comment></dtml-comment></dtml-unless></dtml-let></dtml-with></dtml-in></dtml-if>').cook()
 CONT_OF = {'if': ('else', 'elif'), 'in': ('else',), 'try': ('except', 'else', 'finally')}
 
 
@@ -275,32 +280,35 @@ def print_token(tok, i, syn):
     if name == 'var':
         return '%%(%s)s' % args
     if role == 'bogus':
-        return '%%(bogus %s)[' % args
+        return '%%(%s %s)[' % (name, args)
     return '%%(%s %s)!' % (name, args)      # call / return
 
 
 def grammatical(toks):
     """independent recogniser of the tag grammar stated in the property, for the token vocabulary above"""
-    stack = []      # entries: [name, list of continuation (name, has_args) seen]
-    for name, role, ab in toks:
+    stack = []      # entries: [name, args, list of continuation (name, has_args) seen]
+    for pos, (name, role, ab) in enumerate(toks, 1):
+        args = (ab % pos) if '%d' in ab else ab
         if role in ('text', 'simple'):
             continue
         if role == 'bogus':
-            return False                                  # unknown tag
+            return False                                  # unknown tag (tag names are case-sensitive)
         if role == 'open':
-            stack.append([name, []])
+            stack.append([name, args, []])
             continue
         if role == 'close':
             if not stack or stack[-1][0] != name:
                 return False                              # end tag without matching start
-            bname, conts = stack.pop()
+            bname, bargs, conts = stack.pop()
             if not block_ok(bname, conts):
                 return False
             continue
         # continuation
         if not stack or name not in CONT_OF.get(stack[-1][0], ()):
             return False                                  # misplaced continuation tag
-        stack[-1][1].append((name, bool(ab)))
+        if name == 'else' and args and args != stack[-1][1]:
+            return False                                  # an else naming anything but its own if/in variable is not a continuation
+        stack[-1][2].append((name, bool(args) and name != 'else'))
     return not stack                                      # missing end tag
 
 
@@ -462,7 +470,7 @@ def make_attrlist(tag, nitems, syn):
 WELL = [
     '<dtml-if a>x<dtml-elif "b == 1">y<dtml-else>z</dtml-if>\n<dtml-in s sort=k size=3 orphan=1>&dtml-x;</dtml-in>',
     '<!--#try-->\n<!--#var x fmt="%d" null=""-->\n<!--#except KeyError-->k<!--#else-->e<!--#/try-->&dtml.url_quote-y;',
-    '%(in s)[%(x)s %(y upper null="n")08.2f\n%(else)[none%(in s)]%(if "a + 1")[y%(if)]',
+    '%(in s)[%(x)s %(y upper null="n")08.2f\n%(else)[none%(in s)]%(if expr="a + 1")[y%(if)]',
     '<dtml-let a=b c="1 + 2">\n<dtml-with a mapping>&dtml-c;</dtml-with></dtml-let><dtml-raise KeyError>m</dtml-raise>',
     '<dtml-comment>\n<dtml-var x>\n</dtml-comment>\n<dtml-unless expr="x">u</dtml-unless><dtml-return expr="1"><dtml-call "f(1)">',
 ]
@@ -582,9 +590,9 @@ for _syn in ('dtml', 'ssi', 'epfs'):
     if tier(True, False):
         seq_obs(_syn, 3, TOK[:NCORE], 4, 3, 'core')
     else:
-        seq_obs(_syn, 3, TOK, 26, 3, 'full')
+        seq_obs(_syn, 3, TOK, len(TOK), 3, 'full')
 for _syn in tier(('dtml',), ('dtml', 'ssi', 'epfs')):
-    seq_obs(_syn, 4, TOK[:NCORE], 12, 2, 'core')
+    seq_obs(_syn, 4, TOK[:NCORE], NCORE, 2, 'core')
 if not tier(True, False):
     seq_obs('dtml', 5, TOK[:NCORE - 2], 10, 1, 'core10')
 for _tag in ATTRS:
